@@ -36,12 +36,14 @@ META = {
              'both distances, and menger.knee) whose internal primitive calls are monitored and counted separately '
              '(@simplifier). distinct = digest(primitive, inputs); non-trivial = some distance > 0 / 0 < IoU < 1 / '
              'non-collinear triple / values not already in ascending order'),
-    'require': {'shortest': 700, 'perp': 500, 'perp_index': 300, 'perp_full': 150, 'iou': 1000,
-                'menger': 700, 'menger:symmetry': 700, 'rank': 300, 'euclid': 300, 'similarity': 150,
-                'area': 500, 'shortest@simplifier': 600, 'perp@simplifier': 600, 'menger@simplifier': 1000,
-                'hist:clamp_branch': 5000, 'nontrivial': 2000},
+    'require': {'shortest': 1500, 'perp': 4000, 'perp_index': 3000, 'perp_full': 1500,
+                'iou': 1400, 'iou:symmetry': 1400, 'iou:value': 1200, 'iou:disjoint': 600, 'iou:identical': 120,
+                'menger': 1400, 'menger:symmetry': 1400, 'menger:collinear': 3000,
+                'rank': 500, 'euclid': 1500, 'similarity': 500, 'area': 1400, 'area:collinear': 280,
+                'shortest@simplifier': 12000, 'perp@simplifier': 12000, 'menger@simplifier': 7500,
+                'hist:clamp_branch': 100000, 'nontrivial': 20000},
     'scale': {'quick': 1, 'thorough': 20},
-    'quick_cases': 6400, 'thorough_cases': 160000,
+    'quick_cases': 16000, 'thorough_cases': 320000,
     'timeout': {'quick': 600, 'thorough': 3000},
     'assumptions': ['np.longdouble has a 64-bit mantissa on this platform (checked at start-up)',
                     'tolerant clauses cannot see errors below 64*eps*(|coords|max + chord length)',
@@ -580,7 +582,7 @@ def _gen_dist(rng, tier):
     n = len(pts)
     lo, hi = pts.min(axis=0), pts.max(axis=0)
     span = np.where(hi > lo, hi - lo, 1.0)
-    seg = pick(rng, ['chord', 'off', 'a==b', 'beyond', 'axis', 'int'])
+    seg = pick(rng, ['chord', 'off', 'a==b', 'beyond', 'axis', 'int', 'tiny'])
     if seg == 'chord' or (seg == 'beyond' and n < 4):
         seg = 'chord'
         a, b = pts[0].copy(), pts[-1].copy()
@@ -596,6 +598,9 @@ def _gen_dist(rng, tier):
         a, b = pts[i].copy(), pts[j].copy()
         if rng.random() < 0.3:
             a, b = b, a
+    elif seg == 'tiny':
+        a = pts[int(rng.integers(0, n))].copy()
+        b = a + span * rng.normal(0, 1, 2) * 10.0 ** -int(rng.integers(6, 12))     # chord << coordinates
     elif seg == 'axis':
         a = lo + span * rng.uniform(-0.2, 1.2, 2)
         b = lo + span * rng.uniform(-0.2, 1.2, 2)
@@ -613,7 +618,7 @@ def _gen_dist(rng, tier):
 
 
 def _gen_rect(rng):
-    cls = pick(rng, ['random', 'random', 'identical', 'nested', 'touching', 'degenerate', 'float', 'float-nested'])
+    cls = pick(rng, ['random', 'random', 'random', 'identical', 'nested', 'touching', 'degenerate', 'float', 'float-nested'])
     if cls == 'float' or cls == 'float-nested':
         s = 10.0 ** int(rng.integers(-3, 5))
         p1, p2 = rng.uniform(0, 10, 2) * s, rng.uniform(0, 10, 2) * s
@@ -643,7 +648,12 @@ def _gen_rect(rng):
             if rng.random() < 0.3:
                 p1, p2 = q1.copy(), q2.copy()
         else:
-            q1, q2 = rng.integers(0, 6, 2), rng.integers(0, 6, 2)
+            # random: mostly non-degenerate pairs so that partial overlaps and truly disjoint pairs are common
+            for _ in range(12):
+                p1, p2 = rng.integers(0, 6, 2), rng.integers(0, 6, 2)
+                q1, q2 = rng.integers(0, 6, 2), rng.integers(0, 6, 2)
+                if np.all(p1 != p2) and np.all(q1 != q2):
+                    break
         dtype = 'i8' if rng.random() < 0.5 else 'f8'
     return {'kind': 'rect', 'cls': cls, 'dtype': dtype, 'p1': np.asarray(p1, dtype=float), 'p2': np.asarray(p2, dtype=float),
             'q1': np.asarray(q1, dtype=float), 'q2': np.asarray(q2, dtype=float)}
